@@ -1,383 +1,19 @@
 // C21 - DPoS state after a rollback equals the state built directly.
-//
-// One real Arbiters/State/Committee instance (statekit) is fed a generated,
-// node-valid block sequence; after every block the full state is dumped
-// (canon).  The dump taken when the instance had processed exactly the blocks
-// up to h IS the direct build to h.  Then the instance is rolled back the way
-// reorganizeChain does it (one OnRollbackTo per detached block) and after
-// every step compared with the direct-build dump of that height; then either
-// the detached blocks are re-applied (and must reproduce the original dumps)
-// or a fork is generated.  At the end a fresh instance is fed the final chain
-// from scratch and compared with the instance that went through the rollbacks
-// (hidden state such as change histories shows up here).
+// The engine is verifharness/statekit/rbk (shared with C22); this package
+// selects the DPoS side.
 package c21
 
 import (
-	"encoding/json"
-	"fmt"
-	"os"
 	"testing"
 
 	"pgregory.net/rapid"
-	"verifharness/lib/canon"
 	"verifharness/lib/vk"
-	"verifharness/statekit"
+	"verifharness/statekit/rbk"
 )
 
 func TestMain(m *testing.M) { vk.Main(m, "C21") }
 
-type history struct {
-	Profile statekit.Profile     `json:"profile"`
-	Era     string               `json:"era"`
-	Ops     []string             `json:"ops"`
-	Blocks  []statekit.BlockInfo `json:"blocks"`
-}
-
-type run struct {
-	t     *rapid.T
-	k     *statekit.Kit
-	g     *statekit.Gen
-	hist  *history
-	dumps map[uint32]*statekit.DPoSObs
-	base  uint32 // lowest height with a dump == lowest rollback target
-	// blocks of the current chain (k.Blocks also holds abandoned ones)
-	kinds    map[string]bool
-	roundChg bool
-	// classification
-	maxDepth     int
-	rollbacks    int
-	forks        int
-	kindsInRange int
-	known        bool
-	dead         string
-}
-
-func (r *run) render() any { return r.hist }
-
-// compare reports the first difference between got (the instance under test)
-// and want (the direct build).  The signature is the generalised path of the
-// first differing field (one root cause is reported once per comparison: the
-// fields after it usually repeat it).  Returns (clean, ok): clean = equal;
-// ok = equal or a listed known finding (the caller resynchronises).
-func (r *run) compare(clause string, h uint32, got, want *statekit.DPoSObs) (clean, ok bool) {
-	views := []struct {
-		name string
-		a, b *canon.Node
-	}{{"", got.Live, want.Live}, {"Checkpoint.", got.Checkpoint, want.Checkpoint}, {"Frame.", got.Frame, want.Frame}}
-	for _, v := range views {
-		df := (&canon.Differ{}).First(v.a, v.b)
-		if df == nil {
-			continue
-		}
-		sig := "C21:" + clause + ":" + v.name + df.Sig()
-		detail := fmt.Sprintf("height %d: %s%s = %s, direct build has %s", h, v.name, df.Path, df.A, df.B)
-		if !vk.Report(r.t, sig, detail, r.render()) {
-			return false, false
-		}
-		r.known = true
-		return false, true
-	}
-	return true, true
-}
-
-func (r *run) advance(n int) {
-	for i := 0; i < n && r.dead == ""; i++ {
-		before := r.k.Arbiters.DutyIndex
-		nArb := len(r.k.Arbiters.CurrentArbitrators)
-		b, c, info := r.g.Block(r.t)
-		r.hist.Blocks = append(r.hist.Blocks, info)
-		if p, val, frame := vk.Catch(func() { r.k.Process(b, c) }); p {
-			// a node panic while connecting a valid block is not a rollback
-			// question (C27/C03 territory); the history cannot continue
-			r.dead = fmt.Sprintf("forward-panic:%s: %v", frame, val)
-			if os.Getenv("C21_DEBUG") != "" {
-				j, _ := json.Marshal(r.hist)
-				fmt.Println(r.dead, string(j))
-			}
-			return
-		}
-		if ok, why := r.k.ProducerMapsConsistent(); !ok {
-			if !r.conflictingTransitions(b.Height, why) {
-				return
-			}
-			continue
-		}
-		r.dumps[b.Height] = r.k.ObserveDPoS()
-		if r.k.Arbiters.DutyIndex < before || len(r.k.Arbiters.CurrentArbitrators) != nArb {
-			r.roundChg = true
-		}
-	}
-}
-
-// conflictingTransitions handles a block after which the producer maps are
-// inconsistent (known forward-processing defect: the per-transaction closures
-// and the automatic transitions of one block are all computed from the
-// pre-block state).  The block is detached again; if that does not give back
-// the previous state the known finding is counted.  The history continues
-// without the block.  Returns false when the case must stop.
-func (r *run) conflictingTransitions(h uint32, why string) bool {
-	vk.Class("forward-conflicting-transitions")
-	r.hist.Ops = append(r.hist.Ops, fmt.Sprintf("block %d dropped: %s", h, why))
-	var err error
-	if p, val, frame := vk.Catch(func() { err = r.k.RollbackOne() }); p {
-		vk.Report(r.t, "C21:rollback:panic:"+frame, fmt.Sprintf("RollbackTo(%d) panicked: %v", h-1, val), r.render())
-		return false
-	}
-	if err != nil {
-		vk.Report(r.t, "C21:rollback:error-within-capacity", fmt.Sprintf("RollbackTo(%d): %v", h-1, err), r.render())
-		return false
-	}
-	if want := r.dumps[h-1]; want != nil {
-		if df := (&canon.Differ{}).First(r.k.ObserveDPoS().Live, want.Live); df != nil {
-			detail := fmt.Sprintf("block %d (%s) rolled back: %s = %s, direct build has %s", h, why, df.Path, df.A, df.B)
-			if !vk.Report(r.t, "C21:rollback:two-transitions-of-one-producer-in-a-block", detail, r.render()) {
-				return false
-			}
-			r.known = true
-		}
-	}
-	r.truncateBlocks(h - 1)
-	r.rebuild()
-	return true
-}
-
-// rebuild replaces the instance by a fresh one fed the current chain (used to
-// resynchronise after a known finding left the instance diverged).
-func (r *run) rebuild() {
-	old := r.k
-	k := old.Rebuild(old.Height)
-	old.Close()
-	r.k = k
-	r.g.K = k
-}
-
 func TestRollbackEqualsDirect(t *testing.T) {
-	rapid.Check(t, func(t *rapid.T) {
-		era := statekit.Era(rapid.SampledFrom(eras()).Draw(t, "era"))
-		prof := statekit.DrawProfile(t, era)
-		k := statekit.New(prof)
-		r := &run{t: t, k: k, hist: &history{Profile: prof, Era: era.String()}, dumps: map[uint32]*statekit.DPoSObs{}, kinds: map[string]bool{}}
-		defer func() { r.k.Close() }()
-		r.g = statekit.NewGen(k)
-		r.g.DrawLazy(t)
-		if era >= statekit.EraCR {
-			r.g.AddKinds(statekit.CRKinds())
-		}
-		// heights below VoteStart do not touch the DPoS state
-		k.StartAt(prof.VoteStart - 1)
-		r.base = prof.VoteStart
-		// histories reach a drawn distance past the last activation height of the era
-		last := prof.PublicDPOS
-		switch era {
-		case statekit.EraCR:
-			last = prof.CRClaimStart
-		case statekit.EraNewCR:
-			last = prof.RevertToPOWStart
-		case statekit.EraV2:
-			last = prof.DPoSV2Start
-		}
-		maxHeight := last + uint32(rapid.IntRange(4, 30).Draw(t, "maxheight"))
-		if vk.Thorough() {
-			maxHeight = last + uint32(rapid.IntRange(4, 50).Draw(t, "maxheight2"))
-		}
-		// first block at VoteStart: after it the lowest rollback target exists
-		r.advance(1)
-		nops := rapid.IntRange(6, 30).Draw(t, "nops")
-		for op := 0; op < nops; op++ {
-			if r.k.Height >= maxHeight || r.dead != "" {
-				break
-			}
-			if r.k.Height > r.base && rapid.IntRange(0, 2).Draw(t, "op") == 0 {
-				if !r.rollbackEpisode() {
-					return
-				}
-				continue
-			}
-			n := rapid.IntRange(1, 8).Draw(t, "advance")
-			r.hist.Ops = append(r.hist.Ops, fmt.Sprintf("advance %d from %d", n, r.k.Height))
-			r.advance(n)
-		}
-		if r.dead != "" {
-			vk.Class("dead/" + r.dead[:minInt(len(r.dead), 90)])
-			vk.Case("era-"+r.hist.Era+"/forward-panic", false, nil, nil)
-			return
-		}
-		if r.k.Height > r.base {
-			if !r.rollbackEpisode() {
-				return
-			}
-		}
-		if r.dead != "" {
-			vk.Class("dead/" + r.dead[:minInt(len(r.dead), 90)])
-			vk.Case("era-"+r.hist.Era+"/forward-panic", false, nil, nil)
-			return
-		}
-		// fresh instance fed the final chain
-		if r.rollbacks > 0 && !r.known {
-			fresh := r.k.Rebuild(r.k.Height)
-			got := r.k.ObserveDPoS()
-			want := fresh.ObserveDPoS()
-			fresh.Close()
-			if _, ok := r.compare("rebuild", r.k.Height, got, want); !ok {
-				return
-			}
-		}
-		r.classify()
-	})
-}
-
-// rollbackEpisode rolls back d blocks step by step, then re-applies or forks.
-func (r *run) rollbackEpisode() bool {
-	t := r.t
-	tip := r.k.Height
-	maxD := int(tip - r.base)
-	d := 1
-	switch rapid.IntRange(0, 3).Draw(t, "depthclass") {
-	case 0:
-		d = 1
-	case 1, 2:
-		d = rapid.IntRange(1, minInt(6, maxD)).Draw(t, "depth")
-	case 3:
-		d = rapid.IntRange(1, maxD).Draw(t, "deepdepth")
-	}
-	fork := rapid.IntRange(0, 2).Draw(t, "fork") == 0
-	r.hist.Ops = append(r.hist.Ops, fmt.Sprintf("rollback %d from %d fork=%v", d, tip, fork))
-	r.rollbacks++
-	if d > r.maxDepth {
-		r.maxDepth = d
-	}
-	// what is in the rolled-back range
-	kinds := map[string]bool{}
-	for _, bi := range r.hist.Blocks {
-		if bi.Height > tip-uint32(d) && bi.Height <= tip {
-			for _, s := range bi.Txs {
-				for i := 0; i < len(s); i++ {
-					if s[i] == '(' {
-						kinds[s[:i]] = true
-						break
-					}
-				}
-			}
-		}
-	}
-	if len(kinds) > r.kindsInRange {
-		r.kindsInRange = len(kinds)
-	}
-	for i := 0; i < d; i++ {
-		target := r.k.Height - 1
-		var err error
-		p, val, frame := vk.Catch(func() { err = r.k.RollbackOne() })
-		if p {
-			vk.Report(t, "C21:rollback:panic:"+frame, fmt.Sprintf("RollbackTo(%d) panicked: %v", target, val), r.render())
-			return false
-		}
-		if err != nil {
-			vk.Report(t, "C21:rollback:error-within-capacity", fmt.Sprintf("RollbackTo(%d): %v", target, err), r.render())
-			return false
-		}
-		clean, ok := r.compare("rollback", target, r.k.ObserveDPoS(), r.dumps[target])
-		if !ok {
-			return false
-		}
-		if !clean {
-			// known finding: resynchronise with a fresh build of the chain up to target
-			r.rebuild()
-		}
-	}
-	target := tip - uint32(d)
-	if fork {
-		r.forks++
-		r.truncateBlocks(target)
-		for h := range r.dumps {
-			if h > target {
-				delete(r.dumps, h)
-			}
-		}
-		n := rapid.IntRange(1, d+2).Draw(t, "forklen")
-		r.advance(n)
-		return r.dead == ""
-	}
-	// re-apply the detached blocks: must reproduce the original states
-	for r.k.Height < tip {
-		if r.k.Blocks[r.k.Height+1] == nil {
-			break
-		}
-		if p, val, frame := vk.Catch(func() { r.k.Replay() }); p {
-			// the same block was processed without a panic before the rollback
-			vk.Report(t, "C21:reapply:panic:"+frame, fmt.Sprintf("re-applying block %d after the rollback panicked: %v", r.k.Height+1, val), r.render())
-			return false
-		}
-		clean, ok := r.compare("reapply", r.k.Height, r.k.ObserveDPoS(), r.dumps[r.k.Height])
-		if !ok {
-			return false
-		}
-		if !clean {
-			r.rebuild()
-		}
-	}
-	return true
-}
-
-// truncateBlocks drops the rendering of blocks above h (they are abandoned).
-func (r *run) truncateBlocks(h uint32) {
-	n := 0
-	for _, bi := range r.hist.Blocks {
-		if bi.Height <= h {
-			r.hist.Blocks[n] = bi
-			n++
-		}
-	}
-	// abandoned blocks stay visible in the op log only
-	if n < len(r.hist.Blocks) {
-		r.hist.Ops = append(r.hist.Ops, fmt.Sprintf("abandon blocks above %d", h))
-	}
-	r.hist.Blocks = r.hist.Blocks[:n]
-}
-
-func (r *run) classify() {
-	cl := "era-" + r.hist.Era
-	switch {
-	case r.rollbacks == 0:
-		cl += "/no-rollback"
-	case r.maxDepth > 6:
-		cl += "/deep-rollback"
-	case r.forks > 0:
-		cl += "/fork"
-	default:
-		cl += "/rollback-reapply"
-	}
-	nt := r.rollbacks > 0 && (r.kindsInRange >= 2 || r.roundChg)
-	key, _ := json.Marshal(r.hist)
-	vk.Case(cl, nt, key, r.render)
-	for k, v := range r.g.Accepted {
-		vk.Count("tx-accepted/"+k, int64(v))
-	}
-	for k, v := range r.g.Rejected {
-		vk.Count("tx-rejected/"+k, int64(v))
-	}
-	if r.roundChg {
-		vk.Class("has-round-change")
-	}
-	vk.Count("blocks", int64(len(r.hist.Blocks)))
-}
-
-// eras lists the eras to draw from (C21_ERAS=0,1,2,3 narrows it for debugging).
-func eras() []int {
-	if v := os.Getenv("C21_ERAS"); v != "" {
-		var out []int
-		for _, c := range v {
-			if c >= '0' && c <= '3' {
-				out = append(out, int(c-'0'))
-			}
-		}
-		return out
-	}
-	return []int{0, 1, 1, 2, 2, 2}
-}
-
-func minInt(a, b int) int {
-	if a < b {
-		return a
-	}
-	return b
+	cfg := rbk.Config{Prop: "C21", Side: rbk.DPoS, Eras: rbk.ErasFromEnv([]int{0, 1, 1, 2, 2, 2})}
+	rapid.Check(t, func(t *rapid.T) { rbk.Run(t, cfg) })
 }
